@@ -241,11 +241,17 @@ def check_fuzz(case, ctx):
     here = os.path.dirname(os.path.dirname(os.path.abspath(__file__)))
     d = tempfile.mkdtemp(prefix='c08fuzz-')
     try:
-        cmd = [sys.executable, os.path.join(here, 'fuzz', 'c08_target.py'), case['target'], '-runs=%d' % case['runs'], '-seed=%d' % case['seed'],
+        corpus = os.path.join(d, 'corpus'); os.makedirs(corpus)
+        saved = os.path.join(here, 'fuzz', 'corpus-' + case['target'])
+        if os.path.isdir(saved):
+            for fn in os.listdir(saved): shutil.copy(os.path.join(saved, fn), corpus)      # regression inputs are executed first
+        cmd = [sys.executable, os.path.join(here, 'fuzz', 'c08_target.py'), case['target'], corpus, '-runs=%d' % case['runs'], '-seed=%d' % case['seed'],
                '-max_len=96', '-artifact_prefix=' + d + os.sep]
         r = subprocess.run(cmd, cwd=d, capture_output=True, text=True, timeout=3000)
         crashes = glob.glob(os.path.join(d, 'crash-*'))
         if 'No module named' in r.stderr and 'atheris' in r.stderr:
+            if case['runs'] == 0:
+                ctx.label('fuzz corpus replay skipped: atheris not installed'); return
             raise RuntimeError('atheris is not installed (setup_verif.py installs it into .deps)')
         if crashes or (r.returncode != 0 and 'Done' not in r.stderr):
             data = open(crashes[0], 'rb').read() if crashes else b''
@@ -253,6 +259,7 @@ def check_fuzz(case, ctx):
             raise Violation('fuzz target %s: parse raised an exception that is not an UnexpectedInput' % case['target'], target=case['target'],
                             input_base64=base64.b64encode(data).decode(), input_repr=repr(data)[:300], stderr_tail=tail)
         ctx.label('fuzz:%s' % case['target'])
+        if case['runs'] == 0: return
         ctx.evaluations += case['runs'] - 1
         ctx.nontrivial(['fuzz', case['target'], case['seed']], sample={'fuzz_target': case['target'], 'executions': case['runs'], 'libfuzzer_seed': case['seed']})
     finally:
@@ -277,7 +284,11 @@ def strat(o, fam, n, max_len):
 
 def phases(tier):
     k = 12 if tier == 'thorough' else 1
-    extra = [Phase('atheris-repository-grammars', 'enumerate', cases=fuzz_cases(60000), check=check_fuzz)] if tier == 'thorough' else []
+    extra = [Phase('atheris-repository-grammars', 'enumerate', cases=fuzz_cases(60000), check=check_fuzz, case_limit=3600)] if tier == 'thorough' else []
+    # quick tier: only the saved fuzz inputs are replayed (seconds)
+    if tier != 'thorough':
+        extra = [Phase('atheris-corpus-replay', 'enumerate', check=check_fuzz, case_limit=300,
+                       cases=lambda shard, nshards: ([{'target': 'larkgrammar', 'runs': 0, 'seed': 1}] if shard == 0 else []))]
     return extra + [Phase('tok', 'hypothesis', strategy=strat(O_TOK, 'tok', 4, 10), max_examples=16000 * k),
             Phase('ovl', 'hypothesis', strategy=strat(O_OVL, 'ovl', 4, 10), max_examples=12000 * k),
             Phase('nested-one-instance-many-errors', 'hypothesis', strategy=nested_cases(), max_examples=4000 * k)]
